@@ -230,6 +230,10 @@ func (c *DefaultCrawler) Run(ctx context.Context, startingPeers []*peer.AddrInfo
 		}
 		peerAddrs.addPeerAddrsNoLock(ai.ID, extendAddrs)
 
+		if _, ok := peersSeen[ai.ID]; ok {
+			// listed more than once: keep the extra addresses, dial only once
+			continue
+		}
 		toDial = append(toDial, ai)
 		peersSeen[ai.ID] = struct{}{}
 	}
